@@ -22,7 +22,7 @@ try:
         q = subprocess.run([os.path.join(ROOT, 'check'), p, '--tier', tier], capture_output=True, text=True, cwd=ROOT)
         lines = [l for l in q.stdout.splitlines() if l.startswith('VIOLATION') or l.startswith(p + ' tier')]
         results[p] = (q.returncode, lines)
-        print(p, 'rc', q.returncode, ' | '.join(l[:160] for l in lines))
+        print(p, 'rc', q.returncode, ' | '.join(l[:160] for l in lines[:2] + lines[-1:]))
 finally:
     subprocess.run(['git', '-C', '/repo', 'checkout', '--', '.'])
     # rebuild the harness on the clean tree so later runs start from the unchanged code
